@@ -743,6 +743,43 @@ def r7(k: Kit) -> None:
     rep.floor('C15.R7', 'certificate encoder tables', n, 2)
 
 
+def r8(k: Kit) -> None:
+    """The EC public point kept in a key object is canonical."""
+    from ..flow import expr_sources
+    rep = k.rep
+    rep.rule('C15.R8', 'every constructor of the EC key shims hands the key '
+             'object a public point produced by public_bytes(X962, '
+             'UncompressedPoint) of the key itself, never the point field as '
+             'it was read: that field is optional in PKCS#1/PKCS#8 private '
+             'keys and may be compressed, while SSH blobs carry the '
+             'uncompressed point')
+    n = 0
+    for qual in ('crypto.ec.ECDSAPrivateKey.construct',
+                 'crypto.ec.ECDSAPrivateKey.generate',
+                 'crypto.ec.ECDSAPublicKey.construct'):
+        fi = k.func(qual)
+        g = k.cfg(fi)
+        rd = k.rd(fi)
+        for nd, c in k.calls_named(fi, 'cls'):
+            if len(c.args) < 4:
+                continue
+            n += 1
+            leaves, free = expr_sources(g, rd, nd.id, c.args[3])
+            okp = bool(leaves) and not free and all(
+                is_call(l, 'public_bytes') and
+                'UncompressedPoint' in unparse(l) for l in leaves)
+            rep.check(okp, 'C15.R8', key(fi, 'public point derived from the '
+                                         'key'),
+                      'the point is public_bytes(X962, UncompressedPoint)',
+                      f'`{norm(c.args[3])}` is stored as the public point as '
+                      'it was read from the input: a private key without the '
+                      'optional public key field yields an empty point, a '
+                      'compressed point is exported verbatim - the OpenSSH '
+                      'public key written from it is not the key',
+                      k.loc(fi, nd))
+    rep.floor('C15.R8', 'EC key constructors', n, 3)
+
+
 def run(idx, rep, tier):
     k = Kit(idx, rep)
     rep.assumptions += NOT_DECIDED
@@ -753,3 +790,4 @@ def run(idx, rep, tier):
     r5(k)
     r6(k)
     r7(k)
+    r8(k)
